@@ -57,6 +57,9 @@ func corrC18(r *Run) {
 	r.Rule = "inputs: corpus (repository samples, pre-fix witnesses, edge cases), then well-formed TPDUs of all six types and both report " +
 		"flavours, each also with one field replaced by arbitrary octets (filler / non-decimal nibbles, length lies, resized, truncated, " +
 		"each time-stamp component 00 / 0F / F0 / FF in turn) and cut at every position, inputs of more than 4096 octets, then random octet strings; " +
+		"ORDERED HISTORIES: every ordered pair (both ways, plus random longer sequences) of a corpus holding a well-formed and a malformed instance of each of the " +
+		"eight structures / both report flavours / both directions / every validity-period format / numeric and alphanumeric addresses is decoded and re-marshalled in " +
+		"one FRESH child process per first element, each observation compared with the same input decoded first in a fresh process; " +
 		"every input is decoded through bytes.NewReader AND through four readers that hand out the same octets in pieces (one octet per Read, " +
 		"half reads, io.EOF together with the last data, a random chunk schedule); non-trivial = distinct inputs longer than 2 octets; " +
 		"STRICT model cases (decoded value + re-encoded octets must equal the model's): the repository's samples and the well-formed SMS-DELIVER / " +
@@ -132,6 +135,8 @@ func corrC18(r *Run) {
 	}
 	c18FieldDecoders(r)
 	c18ReaderScripts(r)
+	// ordered histories in fresh processes: the result must not depend on what was decoded before
+	smsHistories(r, smsHistoryCorpus(r.Rng), r.N(3, 40))
 	// every first octet x failure bit x SC present, with a short tail
 	for sc := 0; sc < 2; sc++ {
 		for fo := 0; fo < 256; fo += 1 {
